@@ -503,6 +503,8 @@ def main(argv=None):
         results, hang_fails = run_pool(prop, mod, shards, jobs)
 
     if hasattr(mod, 'teardown'):
+        import atexit
+        atexit.register(mod.teardown)      # reproduction runs (below) may create scratch files again
         try:
             mod.teardown()
         except Exception:       # noqa: BLE001
